@@ -177,6 +177,10 @@ def tlc_exhaustive(scen, workers=None, timeout=1500, liveness=False):
     m = re.search(r"(\d+) states generated, (\d+) distinct states found", out)
     if m:
         st["generated"], st["distinct"] = int(m.group(1)), int(m.group(2))
+    else:
+        pm = re.findall(r"Progress\(\d+\)[^\n]*?: ([\d,]+) states generated[^\n]*?, ([\d,]+) distinct states found", out)
+        if pm:  # stopped by the time limit: the last progress report
+            st["generated"], st["distinct"] = int(pm[-1][0].replace(",", "")), int(pm[-1][1].replace(",", ""))
     m = re.search(r"depth of the complete state graph search is (\d+)", out)
     if m:
         st["depth"] = int(m.group(1))
@@ -256,8 +260,11 @@ def check_property(prop, tier, seed0):
             for inv in st["violated"]:
                 report(f"design: TLC finds {inv} violated in {sname}", p, {"kind": "design", "scenario": sname, "invariant": inv})
         elif not st.get("complete"):
-            if st["rc"] == -9 and cfgp.get("mc_may_timeout"):
+            if st["rc"] == -9 and (cfgp.get("mc_may_timeout") or tier == "thorough"):
+                # the thorough tier explores as far as the time limit allows: a partial exploration without a
+                # violation is reported as such in the evidence, it is not an infrastructure failure
                 ev["coverage"]["tlc_runs"][-1]["note"] = "stopped by time limit (state count is what was explored)"
+                log(f"[{prop}] exhaustive {sname}: stopped by the time limit, no violation in what was explored")
             else:
                 log(st.get("error", ""))
                 raise Infra(f"TLC failed on {sname}")
